@@ -13,7 +13,9 @@ import (
 // ReorderFetcher.flush as one critical section of flushMu. These facts are what that is read off from.
 //
 //	c20BatcherMethodsLocked  every exported method of EventBatcher, and every method that mentions b.batch / b.batchToken, in any
-//	                         non-test file of the package: (after verifhook.At hook points) its first two
+//	                         non-test file of the package — except unexported helpers whose every mention in the package is a
+//	                         synchronous call from such a locked method (or from another such helper, depth <= 2) and which do not
+//	                         touch the mutex themselves: (after verifhook.At hook points) its first two
 //	                         statements are `b.mu.Lock()` and `defer b.mu.Unlock()`, and these are the only operations
 //	                         on b.mu in the method (function literals, which run later, excluded)
 //	c20BufferAddDrainLocked  ReorderBuffer.Add has that shape; ReorderBuffer.Drain returns exactly one function literal
@@ -119,21 +121,89 @@ func c20Facts(fc *facts) {
 		})
 		return hit
 	}
-	okBatcher, nMethods := true, 0
+	// all methods of EventBatcher in the package
+	methods := map[string]*ast.FuncDecl{}
 	for _, file := range pkgFiles {
 		for _, d := range file.Decls {
-			fd, ok := d.(*ast.FuncDecl)
-			if !ok || fd.Recv == nil || fd.Body == nil || c20FindMethod(file, "EventBatcher", fd.Name.Name) != fd {
-				continue
+			if fd, ok := d.(*ast.FuncDecl); ok && fd.Recv != nil && fd.Body != nil && c20FindMethod(file, "EventBatcher", fd.Name.Name) == fd {
+				methods[fd.Name.Name] = fd
 			}
-			// exported methods, and any method that reads or writes the batch or its token
-			if !fd.Name.IsExported() && !touchesBatch(fd) {
-				continue
+		}
+	}
+	locked := func(fd *ast.FuncDecl) bool { return c20LockedBody(fd.Body, recvName(fd)+".mu") }
+	// heldHelper: an unexported method that relies on its caller holding b.mu. It must not touch the mutex itself, and every
+	// mention of it anywhere in the package must be a plain call `x.m(...)` made synchronously (not in a function literal,
+	// not under `go` or `defer`) from an EventBatcher method that is itself a locked method or such a helper (depth <= 2).
+	var heldHelper func(name string, depth int) bool
+	heldHelper = func(name string, depth int) bool {
+		fd := methods[name]
+		if fd == nil || fd.Name.IsExported() || depth > 2 || c20MuOps(fd.Body, recvName(fd)+".mu") != 0 {
+			return false
+		}
+		ok, mentions := true, 0
+		for _, file := range pkgFiles {
+			for _, d := range file.Decls {
+				encl, isFn := d.(*ast.FuncDecl)
+				if !isFn || encl.Body == nil {
+					continue
+				}
+				var stack []ast.Node
+				ast.Inspect(encl.Body, func(x ast.Node) bool {
+					if x == nil {
+						stack = stack[:len(stack)-1]
+						return true
+					}
+					stack = append(stack, x)
+					se, isSel := x.(*ast.SelectorExpr)
+					if !isSel || se.Sel.Name != name {
+						return true
+					}
+					mentions++
+					// must be the function of a call expression
+					if len(stack) < 2 {
+						ok = false
+						return true
+					}
+					call, isCall := stack[len(stack)-2].(*ast.CallExpr)
+					if !isCall || call.Fun != ast.Expr(se) {
+						ok = false // method value / passed as a callback
+						return true
+					}
+					for i, anc := range stack[:len(stack)-2] {
+						switch a := anc.(type) {
+						case *ast.FuncLit:
+							ok = false
+						case *ast.GoStmt:
+							if a.Call == call || i >= 0 {
+								ok = false
+							}
+						case *ast.DeferStmt:
+							ok = false
+						}
+					}
+					// the caller: an EventBatcher method holding the lock
+					if methods[encl.Name.Name] != encl {
+						ok = false
+					} else if !locked(encl) && !heldHelper(encl.Name.Name, depth+1) {
+						ok = false
+					}
+					return true
+				})
 			}
+		}
+		return ok && mentions > 0
+	}
+	okBatcher, nMethods := true, 0
+	for name, fd := range methods {
+		// exported methods, and any method that reads or writes the batch or its token
+		if !fd.Name.IsExported() && !touchesBatch(fd) {
+			continue
+		}
+		if fd.Name.IsExported() {
 			nMethods++
-			if !c20LockedBody(fd.Body, recvName(fd)+".mu") {
-				okBatcher = false
-			}
+		}
+		if !locked(fd) && !heldHelper(name, 1) {
+			okBatcher = false
 		}
 	}
 	// Add, IsFull and Flush are the methods the model has; fewer means the file no longer has the expected shape
